@@ -568,14 +568,14 @@ class Check:
 
     def tasks(self, tier, seed):
         if tier == "quick":
-            t = [{"kind": "rand", "seed": seed * 1000 + i, "n": 60} for i in range(28)]
+            t = [{"kind": "rand", "seed": seed * 1000 + i, "n": 60} for i in range(24)]
             t += [{"kind": "enum", "seed": seed * 1000 + 700 + i, "sets": 1, "stride": 9, "offset": i} for i in range(2)]
             # the multi-step writes of a resolution sit at the end of the operation: enumerate that part densely
             t += [{"kind": "enum", "seed": seed * 1000 + 800 + i, "sets": 1, "stride": 1, "offset": 0, "tail": 0.22,
-                   "shard": [j, 3]} for i in range(3) for j in range(3)]
+                   "shard": [j, 4]} for i in range(2) for j in range(4)]
             # ... and the change of the method set itself sits at the very start of a re-registration
             t += [{"kind": "enum", "seed": seed * 1000 + 850 + i, "sets": 2, "stride": 1, "offset": 0, "head": 160,
-                   "scenarios": ["rebuild"], "shard": [j, 2]} for i in range(4) for j in range(2)]
+                   "scenarios": ["rebuild"], "shard": [j, 2]} for i in range(3) for j in range(2)]
             return t
         t = [{"kind": "rand", "seed": seed * 1000 + i, "n": 3000} for i in range(8)]
         t += [{"kind": "enum", "seed": seed * 1000 + 700 + i, "sets": 1, "stride": 1, "offset": 0} for i in range(8)]
